@@ -55,6 +55,7 @@ type axiomRange struct {
 
 type Unit struct {
 	axioms []axiomRange
+	antecedents []antecedentCheck
 	aliases map[string]string // rename tolerance: contract name -> current local name
 	allLocals map[string]string
 	eng     *Engine
@@ -96,6 +97,13 @@ type reachCheck struct {
 	Name   string
 	Prefix int
 	Pc     Term
+}
+
+// antecedentCheck: the antecedent of an `A ==> B` postcondition at one return point
+type antecedentCheck struct {
+	Clause string
+	Prefix int
+	Cond   Term // path condition && A
 }
 
 type retPoint struct {
